@@ -29,6 +29,9 @@ type skipItem struct {
 	note string
 }
 
+// bigValuesProfile is set by C14's hot profile before its tasks start (read-only afterwards).
+var bigValuesProfile = false
+
 // genSkipStream builds the item list and the stream.
 func genSkipStream(c *sim.Ctx, st *sim.Stream, maxDepth int) (items []skipItem, stream []byte) {
 	o := &ref.GenOpts{MaxBytes: 6000, BigString: true, MaxDepth: 6}
@@ -37,6 +40,15 @@ func genSkipStream(c *sim.Ctx, st *sim.Stream, maxDepth int) (items []skipItem, 
 	for i := 0; i < nv; i++ {
 		var v *ref.Value
 		note := ""
+		if bigValuesProfile && st.Chance(1, 2) {
+			// C14's hot profile: values beyond every small-buffer threshold (32 KiB, 64 KiB)
+			n := []int{33000, 40000, 66000, 70000}[st.Choose(4)]
+			v = &ref.Value{T: ref.TString, Bin: sim.KeyedBytes(key+uint64(i), 0, n)}
+			enc := ref.Encode(v)
+			items = append(items, skipItem{v: v, enc: enc, off: len(stream), note: "big"})
+			stream = append(stream, enc...)
+			continue
+		}
 		switch st.Pick(6, 2, 2, 1, 1) {
 		case 4:
 			v = ref.GenWide(st, []int{63, 64, 65, 66, 70, 130, 200}[st.Choose(7)])
